@@ -2,6 +2,7 @@ package vm
 
 import (
 	"fmt"
+	"strings"
 	"time"
 )
 
@@ -49,6 +50,8 @@ type Stats struct {
 	Bound          int
 	StepLimited    int64
 	Deadlocks      int64
+	InfraErrs      []string
+	SampleObs      []string
 	Violations     []Violation
 	ViolationCount int64
 }
@@ -64,6 +67,7 @@ func Explore(sc *Scenario, opt Options) *Stats {
 	type ckey struct {
 		fp uint64
 	}
+	FingerprintIgnoresRunning = opt.Bound < 0
 	cache := map[uint64]int{} // fingerprint -> best remaining budget explored (+1)
 	stack := []frame{{prefix: append([]int{}, opt.Prefix...), cost: opt.PrefixCost}}
 	seenSig := map[string]bool{}
@@ -100,6 +104,17 @@ func Explore(sc *Scenario, opt Options) *Stats {
 		}
 		r := RunOnce(sc.Main, f.prefix, sc.MaxSteps, prune)
 		st.Executions++
+		if st.Executions == 1 {
+			st.SampleObs = append([]string{}, r.Obs...)
+			if len(st.SampleObs) > 40 {
+				st.SampleObs = st.SampleObs[:40]
+			}
+		}
+		if r.Status == StPanic && strings.HasPrefix(r.PanicMsg, "vm:") {
+			st.InfraErrs = append(st.InfraErrs, sc.Name+": "+r.PanicMsg+"\n"+r.PanicStk)
+			st.Complete = false
+			break
+		}
 		st.Points += int64(len(r.Trace))
 		if len(r.Trace) > st.MaxDepth {
 			st.MaxDepth = len(r.Trace)
